@@ -233,6 +233,11 @@ def _stream(lib, case, run, kw_extra=None):
             exc = "budget"
         except Exception as e:
             exc = "%s: %s" % (type(e).__name__, e)
+            import traceback as _tb
+            frames = [f.filename.rsplit("/", 1)[-1] for f in _tb.extract_tb(e.__traceback__)]
+            if any(f in ("nb_scorer.py", "nb_estimator.py", "scorer.py", "pipeline.py",
+                         "count_vectorizer.py") for f in frames):
+                exc = "in-scorer " + exc
     compared[0] += len(cands)
     for i, (old, obj) in enumerate(zip(snaps, cands)):
         if cand_key(obj) != old and i not in changed:
@@ -312,6 +317,12 @@ def execute(case):
             obs.append([tag, "budget"])
             if run["depth"] == 0:
                 break  # the un-truncated search of this text is beyond the step cap
+            continue
+        if r["exc"] and r["exc"].startswith("in-scorer") and prop == "C14" \
+                and run["sched"]["mode"] in ("shipped", "neg_shipped"):
+            viol("C14.finite", "score-raises:" + r["exc"].split()[1].rstrip(":"),
+                 "text=%r sched=%s: computing a score raised %s - no finite score exists for "
+                 "this candidate" % (text, tag, r["exc"]))
             continue
         if r["exc"]:
             # totality is decided by C01 (env-sim); here it only ends the run
@@ -519,8 +530,24 @@ def _schedulers(rng, n_random):
     return s
 
 
+def _long_interval(rng):
+    """a fully spelled-out interval: ~25 tokens, ~50 rule applications (deep traces)"""
+    from qsim.models import forms
+
+    def side():
+        return "%s the %s of %s %d at %d:%02d in the %s %s" % (
+            rng.choice(["monday", "tuesday", "friday", "sunday"]), forms._ord_en(rng.randint(1, 28)),
+            rng.choice(["march", "april", "june", "october"]), rng.choice([2020, 2021, 2023]),
+            rng.randint(1, 11), rng.choice([0, 15, 30, 45]), rng.choice(["early", "late"]),
+            rng.choice(["morning", "afternoon", "evening"]))
+    return "%s %s %s %s" % (rng.choice(["between", "from"]), side(),
+                            rng.choice(["and", "to", "until"]), side())
+
+
 def _texts(rng, n, prop="C15"):
     out = []
+    if prop == "C14":
+        out += [_long_interval(rng) for _ in range(max(2, n // 60))]
     maxtok = 6 if prop == "C15" else 9
     fixed = [t for t in workload.FIXED_TEXTS
              if t and "#" not in t and len(t.split()) <= maxtok]
@@ -544,6 +571,8 @@ def _texts(rng, n, prop="C15"):
             if rng.random() < 0.5:
                 t = rng.choice(workload.DATES + workload.DOWS + ["at", "from"]) + " " + t
         t = " ".join(t.lower().split()) if rng.random() < 0.9 else " ".join(t.split())
+        if len(t) > (44 if prop == "C15" else 64):
+            continue
         toks = t.split(" ")
         if rng.random() < 0.18 and toks:
             # a label somewhere (start, between two expression tokens, end)
@@ -554,7 +583,7 @@ def _texts(rng, n, prop="C15"):
             seps = [", ", "; ", " (", ") ", " \u2013 ", "\u2014", ",", " ,", "\t", "  "]
             t = toks[0] + "".join(rng.choice(seps if rng.random() < 0.5 else [" "]) + x
                                   for x in toks[1:])
-        if t and len(t) <= (44 if prop == "C15" else 64):
+        if t:
             out.append(t)
     return out
 
@@ -578,6 +607,9 @@ def plan(prop, tier, seed):
             # the default configuration anchors bare clock times after scoring
             for s in rng.sample(scheds, 3 if quick else 6):
                 runs.append({"sched": s, "depth": rng.choice([0, 0, 10]), "latent": True})
+        elif len(text.split()) > 12:
+            for s in [{"mode": "shipped"}, {"mode": "constant"}, {"mode": "neg_shipped"}]:
+                runs.append({"sched": s, "depth": 10, "latent": rng.random() < 0.5})
         else:
             for s in scheds:
                 runs.append({"sched": s, "depth": rng.choice([0, 0, 1, 3, 10]),
